@@ -1443,27 +1443,59 @@ Proof.
 Qed.
 
 (* ---- the reader thread: handlers of received messages -------------------------------- *)
+Lemma close_all_g (P : output -> Prop) cids0 r :
+  (forall c r0, P (OClose c r0)) -> forall n, gres P n (close_all n cids0 r).
+Proof.
+  intros HC. induction cids0 as [|k l IH]; intros n; cbn [close_all]; [apply gres_refl|].
+  pose proof (close_conn_g P n k r (HC _ _)) as G1. destruct (close_conn n k r) as [n1 o1].
+  pose proof (IH n1) as G2. destruct (close_all n1 l r) as [n2 o2].
+  eapply gres_app; eassumption.
+Qed.
+
 Lemma recv_cer_g n cid m : gres nodial n (recv_cer n cid m).
 Proof.
   unfold recv_cer. destruct (pres_get (m_origin m)) as [host|]; [|apply gres_refl].
   destruct (get_peer n host) as [p|].
   - cbv zeta.
-    set (n1 := set_conns n (upd_conn (n_conns n) cid (fun c =>
+    set (n0 := set_conns n (upd_conn (n_conns n) cid (fun c =>
                   if String.eqb (c_node_name c) String.EmptyString then set_cident c host (c_host c) (c_auth c) (c_acct c) else c))).
-    assert (F1 : frame n n1).
+    assert (F0 : frame n n0).
     { apply frame_upd_conn. intros c. destruct (String.eqb (c_node_name c) String.EmptyString); reflexivity. }
-    assert (A : gres nodial n (send_message n1 cid (answer_of m (Some RC_NO_COMMON_APP) []))).
-    { eapply gres_pre; [exact F1|]. apply send_message_g. exact I. }
-    match goal with |- context [flag_ready ?x cid] => set (n3 := flag_ready x cid) end.
-    assert (B : gres nodial n (send_message n3 cid (answer_of m (Some RC_SUCCESS) []))).
+    (* election lost: CLOSING and the 4003 answer *)
+    assert (L : gres nodial n (send_message (set_conns n0 (upd_conn (n_conns n0) cid (fun c => set_cstate c SClosing))) cid
+                                 (answer_of m (Some RC_ELECTION_LOST) []))).
     { eapply gres_pre; [|apply send_message_g; exact I].
-      eapply frame_trans; [exact F1|]. unfold n3.
-      eapply frame_trans; [|apply flag_ready_frame]. eapply frame_trans; [|apply assign_peer_conn_frame].
+      eapply frame_trans; [exact F0|]. apply frame_upd_conn. reflexivity. }
+    (* election won or no rival: the rivals are closed first *)
+    pose proof (close_all_g nodial (election_rivals n0 cid host) R_CLEAN (fun _ _ => I) n0) as G.
+    clearbody n0.
+    destruct (close_all n0 (election_rivals n0 cid host) R_CLEAN) as [n1 oel].
+    assert (G' : gres nodial n (n1, oel)) by (eapply gres_pre; eassumption).
+    assert (A : gres nodial n (let '(n2, o) := send_message n1 cid (answer_of m (Some RC_NO_COMMON_APP) []) in (n2, (oel ++ o)%list))).
+    { pose proof (send_message_g nodial n1 cid (answer_of m (Some RC_NO_COMMON_APP) []) I) as G2.
+      destruct (send_message n1 cid (answer_of m (Some RC_NO_COMMON_APP) [])) as [n2 o]. eapply gres_app; eassumption. }
+    match goal with |- context [flag_ready ?x cid] => set (n3 := flag_ready x cid) end.
+    assert (F3 : frame n1 n3).
+    { unfold n3. eapply frame_trans; [|apply flag_ready_frame]. eapply frame_trans; [|apply assign_peer_conn_frame].
       apply frame_upd_conn. reflexivity. }
     clearbody n3.
-    destruct (inter_z (node_auth n1) (m_auth m)); [|exact B].
-    destruct (inter_z (node_acct n1) (m_acct m)); [|exact B].
-    destruct (mem_z APP_RELAY (m_auth m) || mem_z APP_RELAY (m_acct m)); [exact B|exact A].
+    assert (B : gres nodial n (let '(n4, o) := send_message n3 cid (answer_of m (Some RC_SUCCESS) []) in (n4, (oel ++ o)%list))).
+    { pose proof (send_message_g nodial n3 cid (answer_of m (Some RC_SUCCESS) []) I) as G2.
+      destruct (send_message n3 cid (answer_of m (Some RC_SUCCESS) [])) as [n4 o].
+      eapply gres_app; [exact G'|]. eapply gres_pre; eassumption. }
+    assert (W : gres nodial n
+                  match inter_z (node_auth n1) (m_auth m), inter_z (node_acct n1) (m_acct m),
+                        mem_z APP_RELAY (m_auth m) || mem_z APP_RELAY (m_acct m) with
+                  | [], [], false =>
+                      let '(n2, o) := send_message n1 cid (answer_of m (Some RC_NO_COMMON_APP) []) in (n2, (oel ++ o)%list)
+                  | _, _, _ =>
+                      let '(n4, o) := send_message n3 cid (answer_of m (Some RC_SUCCESS) []) in (n4, (oel ++ o)%list)
+                  end).
+    { destruct (inter_z (node_auth n1) (m_auth m)); [|exact B].
+      destruct (inter_z (node_acct n1) (m_acct m)); [|exact B].
+      destruct (mem_z APP_RELAY (m_auth m) || mem_z APP_RELAY (m_acct m)); [exact B|exact A]. }
+    destruct (election_rivals n0 cid host) as [|k0 ks]; [exact W|].
+    destruct (String.ltb host (g_host (n_cfg n0))); [exact W|exact L].
   - eapply gres_pre; [|apply send_message_g; exact I]. apply frame_upd_conn. reflexivity.
 Qed.
 
@@ -1471,17 +1503,15 @@ Lemma recv_cea_g n cid m : gres nodial n (recv_cea n cid m).
 Proof.
   unfold recv_cea.
   assert (B : gres nodial n (close_conn n cid R_CER_REJECTED)) by (apply close_conn_g; exact I).
-  match goal with |- context [match pres_get (m_origin m) with Some _ => _ | None => ?y end] =>
-    assert (A : gres nodial n (match pres_get (m_origin m) with
-                               | Some host =>
-                                   (flag_ready (assign_peer_conn
-                                      (set_conns (fst y) (upd_conn (n_conns (fst y)) cid (fun c => set_cident c (c_node_name c) host (c_auth c) (c_acct c)))) cid) cid, [])
-                               | None => y end)) end.
-  { destruct (pres_get (m_origin m)) as [host|]; cbn [fst].
-    - apply gres_nil. eapply frame_trans; [|apply flag_ready_frame]. eapply frame_trans; [|apply assign_peer_conn_frame].
-      eapply frame_trans; [apply (frame_upd_conn n cid (fun c => set_cident c (c_node_name c) (c_host c) (inter_z (node_auth n) (m_auth m)) (inter_z (node_acct n) (m_acct m)))); reflexivity|].
-      apply frame_upd_conn. reflexivity.
-    - apply gres_nil. apply frame_upd_conn. reflexivity. }
+  destruct (get_conn n cid) as [c0|]; [|apply gres_refl].
+  destruct (negb (cstate_eqb (c_state c0) SConnected)); [apply gres_refl|].
+  match goal with |- context [match pres_get (m_origin m) with Some h => @?f h | None => ?y end] =>
+    assert (A : gres nodial n (match pres_get (m_origin m) with Some h => f h | None => y end)) end.
+  { destruct (pres_get (m_origin m)) as [host|]; [|apply gres_refl]. cbv beta.
+    destruct (negb (String.eqb (c_node_name c0) String.EmptyString) && negb (String.eqb host (c_node_name c0))); [exact B|].
+    apply gres_nil. eapply frame_trans; [|apply flag_ready_frame]. eapply frame_trans; [|apply assign_peer_conn_frame].
+    apply frame_upd_conn. reflexivity. }
+  cbv beta in A.
   destruct (m_result m) as [| |z]; try exact B.
   destruct z as [|p|p]; try exact B.
   do 11 (destruct p as [p|p|]; try exact B). exact A.
